@@ -216,6 +216,13 @@ type obsList struct {
 	ok     bool
 }
 
+// wipe overwrites a buffer the caller had passed to a call that has returned.
+func wipe(b []byte) {
+	for i := range b {
+		b[i] = 0x5a
+	}
+}
+
 // comparator returns the ordering function a caller may pass as Option.PubKeyComp; whatever the order, the
 // set of listed identities is the same.
 func comparator(kind string) func(x, y ssh.PublicKey) bool {
@@ -376,11 +383,13 @@ func runHistory(p *SPlan, noUp bool, o *sim.Outcome, sigParts *[]string) []obsLi
 			if st.Arg == "agentkey" {
 				arg = &agent.Key{Format: pub.Type(), Blob: pub.Marshal()}
 			}
+			dataArg := append([]byte(nil), data...)
 			res = s.call(func() error {
 				var e error
-				sig, e = s.shim.SignWithFlags(arg, data, agent.SignatureFlags(st.Flags))
+				sig, e = s.shim.SignWithFlags(arg, dataArg, agent.SignatureFlags(st.Flags))
 				return e
 			})
+			wipe(dataArg) // callers reuse their buffers
 			id := c.ident(st.Role, 0, now)
 			want, signKeyRole, reason = m.Sign(st.Role, id.IsCert, id.YSSHCA, now)
 			if res.err == nil && res.panicked == nil {
@@ -431,10 +440,14 @@ func runHistory(p *SPlan, noUp bool, o *sim.Outcome, sigParts *[]string) []obsLi
 				want = shimmodel.Err
 			}
 		case "lock":
-			res = s.call(func() error { return s.shim.Lock([]byte(st.Arg)) })
+			pw := []byte(st.Arg)
+			res = s.call(func() error { return s.shim.Lock(pw) })
+			wipe(pw) // a careful caller wipes the passphrase from its buffer as soon as the call returns
 			want = m.Lock(st.Arg)
 		case "unlock":
-			res = s.call(func() error { return s.shim.Unlock([]byte(st.Arg)) })
+			pw := []byte(st.Arg)
+			res = s.call(func() error { return s.shim.Unlock(pw) })
+			wipe(pw)
 			want = m.Unlock(st.Arg)
 		case "ext":
 			var out []byte
@@ -452,7 +465,9 @@ func runHistory(p *SPlan, noUp bool, o *sim.Outcome, sigParts *[]string) []obsLi
 			body := rawBody(st.Arg)
 			req := append([]byte{byte(st.N)}, body...)
 			var out []byte
-			res = s.call(func() error { var e error; out, e = s.shim.Forward(req); return e })
+			reqArg := append([]byte(nil), req...)
+			res = s.call(func() error { var e error; out, e = s.shim.Forward(reqArg); return e })
+			wipe(reqArg)
 			res.bytes = out
 			want = shimmodel.OK
 			if res.err == nil && res.panicked == nil && !res.faulted {
